@@ -401,12 +401,33 @@ class FTPProcessorSession(BaseProcessorSession):
         path = self._file_writer_session.extra_resource_path('dummy')
 
         if path:
+            if not link_target or not link_name or \
+                    link_name in ('.', '..') or '/' in link_name or \
+                    os.sep in link_name:
+                # A listing that names no target (MLSD) or a link name that
+                # is not a plain file name.
+                _logger.warning(
+                    _('Not creating symbolic link {symlink_path}.'),
+                    symlink_path=link_name
+                )
+                return
+
             dir_path = os.path.dirname(path)
             symlink_path = os.path.join(dir_path, link_name)
 
             _logger.debug('symlink {} -> {}', symlink_path, link_target)
 
-            os.symlink(link_target, symlink_path)
+            try:
+                os.symlink(link_target, symlink_path)
+            except OSError as error:
+                # For example, the link was created by an earlier run or
+                # is listed twice.
+                _logger.warning(
+                    _('Could not create symbolic link {symlink_path}: '
+                      '{error}'),
+                    symlink_path=symlink_path, error=error
+                )
+                return
 
             _logger.info(
                 _('Created symbolic link {symlink_path} to target {symlink_target}.'),
